@@ -32,7 +32,7 @@ RULE = ('case = (state, view area, deterministic observation function) with its 
 ASSUMPTIONS = ['rotation of the world defined by index arithmetic in obsgen.rotate_state_cw']
 EXHAUSTIVE_NOTE = 'all poses of 2x3 and 3x3 distinct-object grids (2 variants each) x 36 areas within [-2,1]x[-1,2] x 3 functions x 3 rotations'
 REQUIRED = {'quick': {'pairs.compared': 20000, 'exhaustive.cases': 5000, 'fn.fully_transparent': 2000,
-                      'fn.partially_occluded': 1000, 'fn.raytracing': 2000, 'nonsquare_grid': 1000, 'asymmetric_view': 1000}}
+                      'fn.partially_occluded': 1000, 'fn.raytracing': 2000, 'nonsquare_grid': 1000, 'asymmetric_view': 1000, 'unusual_views': 100}}
 
 
 def compare(ctx, state, area, name, via_vis):
@@ -54,6 +54,8 @@ def compare(ctx, state, area, name, via_vis):
         return
     e0 = enc.es(obs0)
     ctx.hit('fn.' + name)
+    if name == 'custom_cone':
+        fn = obsgen.build_obs(name, area, via_vis)  # fresh masks for the unrotated world; the same function object is then reused
     h, w = len(state.grid.objects), len(state.grid.objects[0])
     if h != w:
         ctx.hit('nonsquare_grid')
@@ -139,6 +141,14 @@ def run(ctx):
                     compare(ctx, state, area, name, via_vis=rng.random() < 0.3)
             if k == 0:
                 ctx.sample('random', {'state': enc.render(state), 'area': obsgen.area_json(area)})
+            if k % 3 == 0:
+                # windows that do not contain the agent's cell (fully transparent only), one-cell windows, and a user-defined
+                # egocentric visibility function that reuses its mask array
+                compare(ctx, state, obsgen.rand_area_excluding_origin(rng), 'fully_transparent', via_vis=(k % 2 == 0))
+                dy, dx = rng.choice([(-1, 0), (1, 0), (0, -1), (0, 1)])
+                compare(ctx, state, Area((dy, dy), (dx, dx)), 'fully_transparent', via_vis=False)
+                compare(ctx, state, gen.rand_area(rng, maxext=3, require_ymax0=True), 'custom_cone', via_vis=False)
+                ctx.hit('unusual_views')
         ctx.extra['exhaustive'] = True
 
 
